@@ -98,6 +98,11 @@ pub async fn handle_notify_get_or_head(
         return Err(req)
     }
 
+    // Subscribe before looking at the current version. Otherwise an update
+    // that happens between the check and the subscription is missed and we
+    // wait for the next one.
+    let mut receiver = notify.subscribe();
+
     let wait = match need_wait(&req, history) {
         Ok(wait) => wait,
         Err(resp) => return Ok(resp),
@@ -106,7 +111,7 @@ pub async fn handle_notify_get_or_head(
     if wait {
         #[cfg(routinator_verif)]
         crate::verif::point("notify.before_subscribe");
-        notify.subscribe().recv().await;
+        receiver.recv().await;
     }
 
     if req.is_head() {
